@@ -23,10 +23,13 @@ type header struct {
 	f          map[string]*sym.Term // rows cols rowOffset rowMax colOffset colMax
 	transposed bool
 	hasT       bool
+	// tmp: role of the scratch vectors tmp1/tmp2: "R" (the receiver's row scratch, at least rows elements), "C" (its
+	// column scratch), "fresh" (allocated for the new header's own dimensions), "" (not set: nil)
+	tmp map[string]string
 }
 
 func symHeader(transposed bool) *header {
-	h := &header{f: map[string]*sym.Term{}, transposed: transposed, hasT: true}
+	h := &header{f: map[string]*sym.Term{}, transposed: transposed, hasT: true, tmp: map[string]string{"tmp1": "R", "tmp2": "C"}}
 	for _, n := range []string{"rows", "cols", "rowOffset", "rowMax", "colOffset", "colMax"} {
 		h.f[n] = sym.Sym("h." + n)
 	}
@@ -34,9 +37,12 @@ func symHeader(transposed bool) *header {
 }
 
 func (h *header) clone() *header {
-	r := &header{f: map[string]*sym.Term{}, transposed: h.transposed, hasT: h.hasT}
+	r := &header{f: map[string]*sym.Term{}, transposed: h.transposed, hasT: h.hasT, tmp: map[string]string{}}
 	for k, v := range h.f {
 		r.f[k] = v
+	}
+	for k, v := range h.tmp {
+		r.tmp[k] = v
 	}
 	return r
 }
@@ -345,7 +351,14 @@ func (it *hdrInterp) stmt(s ast.Stmt) {
 				vals = append(vals, rv{b: b})
 				continue
 			}
-			if ls, ok := ast.Unparen(l).(*ast.SelectorExpr); ok && (ls.Sel.Name == "values" || strings.HasPrefix(ls.Sel.Name, "tmp")) {
+			if ls, ok := ast.Unparen(l).(*ast.SelectorExpr); ok && strings.HasPrefix(ls.Sel.Name, "tmp") {
+				if h := it.hdrOf(ls.X); h != nil && h.tmp != nil {
+					defer func(h *header, k, role string) { h.tmp[k] = role }(h, ls.Sel.Name, it.tmpRole(r))
+				}
+				vals = append(vals, rv{})
+				continue
+			}
+			if ls, ok := ast.Unparen(l).(*ast.SelectorExpr); ok && ls.Sel.Name == "values" {
 				vals = append(vals, rv{})
 				continue
 			}
@@ -401,6 +414,11 @@ func (it *hdrInterp) stmt(s ast.Stmt) {
 		}
 		// m.initTmp() etc: no effect on geometry
 		if ce, ok := x.X.(*ast.CallExpr); ok && calleeName(ce) == "initTmp" {
+			if se, ok := ast.Unparen(ce.Fun).(*ast.SelectorExpr); ok {
+				if h := it.hdrOf(se.X); h != nil && h.tmp != nil {
+					h.tmp["tmp1"], h.tmp["tmp2"] = "fresh", "fresh"
+				}
+			}
 			return
 		}
 		it.fail("statement %s", types.ExprString(x.X))
@@ -441,7 +459,7 @@ func (it *hdrInterp) evalBool(e ast.Expr) *bool {
 }
 
 func (it *hdrInterp) compositeHeader(cl *ast.CompositeLit) *header {
-	h := &header{f: map[string]*sym.Term{}, hasT: it.self.hasT}
+	h := &header{f: map[string]*sym.Term{}, hasT: it.self.hasT, tmp: map[string]string{}}
 	for _, n := range []string{"rows", "cols", "rowOffset", "rowMax", "colOffset", "colMax"} {
 		h.f[n] = sym.Zero()
 	}
@@ -457,7 +475,9 @@ func (it *hdrInterp) compositeHeader(cl *ast.CompositeLit) *header {
 			if b := it.evalBool(kv.Value); b != nil {
 				h.transposed = *b
 			}
-		case k == "values" || strings.HasPrefix(k, "tmp"):
+		case strings.HasPrefix(k, "tmp"):
+			h.tmp[k] = it.tmpRole(kv.Value)
+		case k == "values":
 		default:
 			if t := it.evalInt(kv.Value); t != nil {
 				h.f[k] = t
@@ -465,6 +485,24 @@ func (it *hdrInterp) compositeHeader(cl *ast.CompositeLit) *header {
 		}
 	}
 	return h
+}
+
+// tmpRole classifies the expression stored into a scratch field: the receiver's tmp1/tmp2 (possibly cloned or
+// re-sliced) keep their role, anything else is a fresh allocation.
+func (it *hdrInterp) tmpRole(e ast.Expr) string {
+	role := "fresh"
+	ast.Inspect(e, func(n ast.Node) bool {
+		if se, ok := n.(*ast.SelectorExpr); ok && strings.HasPrefix(se.Sel.Name, "tmp") {
+			if h := it.hdrOf(se.X); h != nil && h.tmp != nil {
+				role = h.tmp[se.Sel.Name]
+			}
+		}
+		return true
+	})
+	if id, ok := ast.Unparen(e).(*ast.Ident); ok && id.Name == "nil" {
+		role = ""
+	}
+	return role
 }
 
 func newHdrInterp(pkg *packages.Package, fd *ast.FuncDecl, self *header, args []*sym.Term) *hdrInterp {
@@ -597,6 +635,11 @@ func checkHeaderIdentities(c *core.Ctx, pkg *packages.Package, T string, hasT bo
 			c.Check(sym.Equal(lhs, rhs), "C10.R1", cons, tag+": T().index(i,j) = index(j,i)", fd.Pos(),
 				fmt.Sprintf("transposed view addresses %s but element (j,i) of the receiver is at %s", lhs, rhs))
 			c.Check(sym.Equal(h2.f["rows"], h.f["cols"]) && sym.Equal(h2.f["cols"], h.f["rows"]), "C10.R1", cons, tag+": Dims swapped", fd.Pos(), "T() must have dimensions (cols, rows)")
+			if hasScratch(pkg, T) {
+				okT := (h2.tmp["tmp1"] == "C" || h2.tmp["tmp1"] == "fresh") && (h2.tmp["tmp2"] == "R" || h2.tmp["tmp2"] == "fresh")
+				c.Check(okT, "C10.R1", cons, tag+": scratch vectors follow the swapped dimensions", fd.Pos(),
+					fmt.Sprintf("the transposed view has %s rows but its row scratch tmp1 is %s and its column scratch tmp2 is %s: operations that use the view as receiver (MdotM, MdotV) index the scratch vectors with the view's dimensions and run past their end for a non-square matrix", h.f["cols"], roleText(h2.tmp["tmp1"]), roleText(h2.tmp["tmp2"])))
+			}
 		}
 		for _, name := range []string{"SLICE", "ConstSlice", "MagicSlice", "Slice"} {
 			fd := core.FindMethod(pkg, T, name)
@@ -634,6 +677,11 @@ func checkHeaderIdentities(c *core.Ctx, pkg *packages.Package, T string, hasT bo
 			c.Check(sym.Equal(h2.f["rows"], sym.Sub(r1, r0)) && sym.Equal(h2.f["cols"], sym.Sub(c1, c0)), "C10.R1", cons, tag+": Dims = (r1-r0, c1-c0)", fd.Pos(),
 				fmt.Sprintf("slice has dimensions (%s,%s)", h2.f["rows"], h2.f["cols"]))
 			c.Check(h2.transposed == h.transposed, "C10.R1", cons, tag+": orientation kept", fd.Pos(), "slice changes the transposed flag")
+			if hasScratch(pkg, T) {
+				okS := (h2.tmp["tmp1"] == "R" || h2.tmp["tmp1"] == "fresh") && (h2.tmp["tmp2"] == "C" || h2.tmp["tmp2"] == "fresh")
+				c.Check(okS, "C10.R1", cons, tag+": scratch vectors keep their roles", fd.Pos(),
+					fmt.Sprintf("the slice's row scratch tmp1 is %s and its column scratch tmp2 is %s", roleText(h2.tmp["tmp1"]), roleText(h2.tmp["tmp2"])))
+			}
 		}
 	}
 }
@@ -698,6 +746,16 @@ func checkSparseTranspose(c *core.Ctx, pkg *packages.Package, T string, fd *ast.
 			if s, ok := ast.Unparen(kv.Value).(*ast.SelectorExpr); !ok || s.Sel.Name != w {
 				bad = k + " is not the receiver's " + w
 			}
+		}
+		// scratch vectors follow the swapped dimensions: tmp1 (row scratch) from the receiver's tmp2 or fresh
+		if k == "tmp1" || k == "tmp2" {
+			other := map[string]string{"tmp1": "tmp2", "tmp2": "tmp1"}[k]
+			ast.Inspect(kv.Value, func(n ast.Node) bool {
+				if se, ok := n.(*ast.SelectorExpr); ok && se.Sel.Name == k {
+					bad = k + " of the transpose is the receiver's " + k + " (sized for the other dimension) instead of its " + other
+				}
+				return true
+			})
 		}
 	}
 	c.Check(bad == "" && seen == 6, "C10.R1", cons, "header of the transpose swaps rows/cols, offsets and maxima", lit.Pos(), bad)
@@ -1241,4 +1299,34 @@ func definedByIndexCall(info *types.Info, fd *ast.FuncDecl, id *ast.Ident) bool 
 		return true
 	})
 	return n >= 1 && ok
+}
+
+func hasScratch(pkg *packages.Package, T string) bool {
+	o := pkg.Types.Scope().Lookup(T)
+	if o == nil {
+		return false
+	}
+	st, ok := o.Type().Underlying().(*types.Struct)
+	if !ok {
+		return false
+	}
+	n := 0
+	for i := 0; i < st.NumFields(); i++ {
+		if st.Field(i).Name() == "tmp1" || st.Field(i).Name() == "tmp2" {
+			n++
+		}
+	}
+	return n == 2
+}
+
+func roleText(r string) string {
+	switch r {
+	case "R":
+		return "the receiver's row scratch (sized for the receiver's rows)"
+	case "C":
+		return "the receiver's column scratch (sized for the receiver's columns)"
+	case "fresh":
+		return "freshly allocated"
+	}
+	return "unset"
 }
